@@ -1096,7 +1096,13 @@ pub fn analyse(
         }
 
         // R3: success only if every step was truly accepted
-        if ok && !is_file {
+        // a request written less than the latency before the connection went down never reached the scripted outstation: the
+        // steps of such a task are not all known
+        let request_lost_in_flight = connected_spans.iter().any(|(_, b)| {
+            b.map(|b| b >= task.start_t && b <= done_t + case.latency.0 + 1)
+                .unwrap_or(false)
+        });
+        if ok && !is_file && !request_lost_in_flight {
             let steps_ok = task.steps.len() == expected_steps(&user.kind);
             let mut all = steps_ok;
             let mut missing = String::new();
